@@ -367,6 +367,21 @@ Qed.
 Lemma double_format_gen : Gen_C17.double_format_is_12g = true.
 Proof. reflexivity. Qed.
 
+(* LogStream.h operators, Fmt and strerror_tl as regenerated: operator<<(bool) appends "1" / "0";
+   operator<<(const char* ) appends "(null)" for NULL; char / C string / string / StringPiece /
+   Buffer / Fmt append exactly their bytes; Fmt holds snprintf's text in char buf_[32], asserts
+   length < sizeof buf_ and is restricted to arithmetic types; strerror_tl returns the result of
+   strerror_r(savedErrno, t_errnobuf, sizeof t_errnobuf) *)
+Lemma stream_ops_gen :
+  bool_true_text = [x31] /\ bool_false_text = [x30] /\ null_text_gen = [x28;x6e;x75;x6c;x6c;x29] /\
+  append_ops_shape_ok = true /\ Fmt_length_assert_is_lt = true /\ Fmt_shape_ok = true /\
+  (1 <= Fmt_buf_size <= Z.of_nat kMaxNumericSize) /\ strerror_tl_shape_ok = true.
+Proof. repeat (split; [reflexivity|]). split; [split; apply Z.leb_le; vm_compute; reflexivity|reflexivity]. Qed.
+
+(* a Fmt item is a value iff its text passed the constructor's assert *)
+Lemma fmt_item_ok s : item_ok (IFmt s) = true <-> (Z.of_nat (length s) < Fmt_buf_size).
+Proof. cbn [item_ok]. apply Z.ltb_lt. Qed.
+
 Lemma int_text_length t v : item_ok (IInt t v) = true -> (1 <= length (convert v) <= 20)%nat.
 Proof.
   cbn [item_ok]. intros H. apply andb_prop in H. destruct H as [Hlo Hhi].
@@ -435,7 +450,7 @@ Section Bounds.
         rewrite firstn_app_all, app_length. unfold flen in *. repeat split; lia.
       - exists b. repeat split; auto. }
     unfold fits.
-    destruct it as [v|c|s|s|t v|p|d]; cbn [is_numeric item_text].
+    destruct it as [v|c|s|s|t v|p|d|s]; cbn [is_numeric item_text].
     - apply App.
     - apply App.
     - apply App.
@@ -451,6 +466,7 @@ Section Bounds.
         eexists; split; [reflexivity|]. cbn [cap data]. unfold flen. cbn [data].
         rewrite firstn_app_all, app_length. unfold flen in *. repeat split; lia.
       + exists b. repeat split; auto.
+    - apply App.
   Qed.
 
   Lemma put_no_fault b it : inv b -> put fmt_g b it <> Fault.
